@@ -677,11 +677,27 @@ def code_objects_of(module):
 def _line_cb(code, line):
     s = _active
     if s is not None:
-        s.yield_point("line")
+        s.yield_point("line2" if code in _secondary_codes else "line")
         return
     h = _line_hook
     if h is not None:
         h(code, line)
+
+
+_secondary_codes = set()
+
+
+def install_secondary(modules):
+    """LINE events on helper modules, reported as yield kind 'line2' so that
+    a run only honours them when its granularity asks for it."""
+    install()
+    for m in modules:
+        for co in code_objects_of(m):
+            if co not in _state["line_codes"]:
+                ev = _mon.get_local_events(TOOL, co) | _mon.events.LINE
+                _mon.set_local_events(TOOL, co, ev)
+                _state["line_codes"].add(co)
+                _secondary_codes.add(co)
 
 
 def _instr_cb(code, offset):
